@@ -37,6 +37,18 @@ def _alarm(*_a):
     raise Hang()
 
 
+class BoundedLog(list):
+    """the record log of one run: a macrostep that never ends must not be able to fill the memory with records before
+    the watchdog fires - past the bound the run is the hang it would be reported as anyway"""
+    LIMIT = 400000
+
+    def append(self, x):
+        if len(self) >= self.LIMIT:
+            _HUNG[0] = True
+            raise Hang()
+        list.append(self, x)
+
+
 class GuardRaises(Exception):
     pass
 
@@ -224,7 +236,7 @@ def case_ops(case):
 
 
 def run_sync(case):
-    log = []
+    log = BoundedLog()
     out = []
     machine = create_machine(copy.deepcopy(case["machine"]), logic=mklogic(log, case["guards"]))
     it = SyncInterpreter(machine)
@@ -322,7 +334,7 @@ _LIBLOG.propagate = False
 
 
 async def _run_async(case):
-    log = []
+    log = BoundedLog()
     out = []
     machine = create_machine(copy.deepcopy(case["machine"]), logic=mklogic(log, case["guards"]))
     it = Interpreter(machine)
